@@ -169,14 +169,14 @@ Proof.
 Qed.
 
 (* the loop over a suffix of cs *)
-Lemma sort_loop_simple : forall S names rest pre cs sorted f,
-  cs = pre ++ rest -> (forall c, In c rest -> ready S names c) -> incl S sorted ->
+Lemma sort_loop_simple : forall S names post rest pre cs sorted f,
+  cs = pre ++ rest ++ post -> (forall c, In c rest -> ready S names c) -> incl S sorted ->
   match simple_loop sorted rest with
   | Some s' => sort_loop (Datatypes.S f) names (mk_sst cs sorted) (length pre) (length rest) = Done (mk_sst cs s')
   | None => is_conflict cs (sort_loop (Datatypes.S f) names (mk_sst cs sorted) (length pre) (length rest))
   end.
 Proof.
-  intros S names rest. induction rest as [|c rest IH]; intros pre cs sorted f Hcs HR HS; cbn [simple_loop sort_loop length].
+  intros S names post rest. induction rest as [|c rest IH]; intros pre cs sorted f Hcs HR HS; cbn [simple_loop sort_loop length].
   - reflexivity.
   - assert (Hc : nth_error cs (length pre) = Some c).
     { subst cs. rewrite nth_error_app2 by lia. now rewrite Nat.sub_diag. }
@@ -187,7 +187,7 @@ Proof.
       specialize (IH (pre ++ [c]) cs s1 f).
       rewrite app_length in IH. cbn [length] in IH. rewrite Nat.add_1_r in IH.
       apply IH; auto.
-      * subst cs. now rewrite <- app_assoc.
+      * subst cs. rewrite <- app_assoc. reflexivity.
       * intros x Hx. apply HR. right. exact Hx.
     + destruct H1 as (st & n & t & -> & Hst). eexists _, _, _. split; [reflexivity|exact Hst].
 Qed.
@@ -255,6 +255,25 @@ Proof.
   - apply (HR c Hc).
 Qed.
 
+Lemma simple_sort_loop : forall B U f,
+  simple_ok B U ->
+  let cs := B ++ U in
+  match simple_loop [] cs with
+  | Some s => sort_loop (Datatypes.S f) (map cb_name cs) (mk_sst cs []) 0 (length cs) = Done (mk_sst cs s)
+  | None => is_conflict cs (sort_loop (Datatypes.S f) (map cb_name cs) (mk_sst cs []) 0 (length cs))
+  end.
+Proof.
+  intros B U f [HP HN HR]. cbn zeta.
+  set (names := map cb_name (B ++ U)).
+  rewrite app_length, sort_loop_app, simple_loop_app.
+  pose proof (sort_loop_simple [] names U B [] (B ++ U) [] f eq_refl
+               (fun c Hc => plain_ready [] names c (HP c Hc)) (incl_refl _)) as P1.
+  rewrite (simple_loop_plain B [] HP HN (fun _ _ H => H)) in *. cbn [app length] in P1.
+  rewrite P1. cbn [Nat.add app].
+  exact (sort_loop_simple (map cb_name B) names [] U B (B ++ U) (map cb_name B) f
+           (eq_sym (f_equal (app B) (app_nil_r U))) HR (incl_refl _)).
+Qed.
+
 Theorem simple_compile : forall B U,
   simple_ok B U ->
   match simple_loop [] (B ++ U) with
@@ -262,21 +281,11 @@ Theorem simple_compile : forall B U,
   | None => exists n t, sort_callbacks (B ++ U) = SErr (B ++ U) n t
   end.
 Proof.
-  intros B U OK. pose proof OK as [HP HN HR].
+  intros B U OK.
   unfold sort_callbacks. rewrite (presort_nostar (B ++ U) (simple_ok_nostar B U OK)).
-  set (cs := B ++ U). set (names := map cb_name cs).
-  assert (Hf : depth_fuel cs = Datatypes.S (2 * length cs + 1)) by (unfold depth_fuel; lia).
-  rewrite Hf. unfold cs at 2. rewrite app_length, sort_loop_app.
-  (* phase 1: the built-ins *)
-  pose proof (sort_loop_simple [] names B [] cs [] (2 * length cs + 1) eq_refl
-               (fun c Hc => plain_ready [] names c (HP c Hc)) (incl_refl _)) as P1.
-  rewrite (simple_loop_plain B [] HP HN (fun _ _ H => H)) in P1. cbn [app length] in P1.
-  rewrite P1. cbn [Nat.add].
-  (* phase 2: the others *)
-  pose proof (sort_loop_simple (map cb_name B) names U B cs (map cb_name B) (2 * length cs + 1) eq_refl
-               HR (incl_refl _)) as P2.
-  unfold cs at 1. rewrite simple_loop_app, (simple_loop_plain B [] HP HN (fun _ _ H => H)). cbn [app].
-  destruct (simple_loop (map cb_name B) U) as [s|].
-  - rewrite P2. reflexivity.
-  - destruct P2 as (st & n & t & -> & Hst). exists n, t. now rewrite Hst.
+  assert (Hf : depth_fuel (B ++ U) = Datatypes.S (2 * length (B ++ U) + 1)) by (unfold depth_fuel; lia).
+  rewrite Hf. pose proof (simple_sort_loop B U (2 * length (B ++ U) + 1) OK) as L. cbn zeta in L.
+  destruct (simple_loop [] (B ++ U)) as [s|].
+  - rewrite L. reflexivity.
+  - destruct L as (st & n & t & -> & Hst). exists n, t. now rewrite Hst.
 Qed.
